@@ -107,6 +107,16 @@ def check(ctx: Ctx):
               f"the variable cost must be {vv}.cost_for_val({p_ass}[{vv}.name])")
     if cv:
         _dichotomy(ctx, sc, vl, norm(cv[0].targets[0]), p_inf, hard, soft, "variable cost term")
+        # every assigned variable contributes: the term may only be skipped for a missing / None value
+        reject = {(f"len({p_vars}) != len({p_ass})", False), (f"len({p_ass}) != len({p_vars})", False)}
+        allowed = {(f"{vv}.name in {p_ass}", True), (f"{p_ass}[{vv}.name] is not None", True), (f"{p_ass}.get({vv}.name) is not None", True)} | reject
+        extra = sorted(x for x in _facts(ff, cv[0]) if x not in allowed)
+        ctx.check(not extra, "R-PAIRING", "variable cost counted for every assigned value", sc, cv[0],
+                  f"the variable-cost term is skipped under {extra}: a legitimate value that is falsy (0, False, '') would lose its cost")
+    if ev:
+        reject = {(f"len({p_vars}) != len({p_ass})", False), (f"len({p_ass}) != len({p_vars})", False)}
+        extra = sorted(x for x in _facts(ff, ev[0]) if x not in reject)
+        ctx.check(not extra, "R-PAIRING", "every constraint is costed", sc, ev[0], f"constraint evaluation is conditional on {extra}")
     # both loops unconditional at function level
     ctx.check(rl in sc.node.body and vl in sc.node.body, "R-DICHOTOMY", "both loops always run", sc, sc.node, "both accounting loops must run for every call")
 
@@ -193,5 +203,6 @@ VARIANTS = [
     ("wrong_filter", _D, "            r_cost = r(**filter_assignment_dict(assignment, r.dimensions))", "            r_cost = r(**filter_assignment_dict(assignment, variables))", "break", "R-PAIRING"),
     ("varcost_twice", _R, "                if v_name not in cost_vars:\n                    cost += v.cost_for_val(assignment[v_name])\n                    cost_vars.add(v_name)", "                cost += v.cost_for_val(assignment[v_name])", "break", "R-ONCE"),
     ("varcost_default_on", _R, "    consider_variable_cost=False,\n    **kwargs,\n):", "    consider_variable_cost=True,\n    **kwargs,\n):", "break", "R-ONCE"),
+    ("varcost_falsy_guard", _D, "        if v.name in assignment and \\\n                assignment[v.name] is not None:", "        if assignment.get(v.name):", "break", "R-PAIRING"),
     ("n_eq_form", _D, "        if r_cost != infinity:\n            cost_soft += r_cost\n        else:\n            cost_hard += 1", "        if r_cost == infinity:\n            cost_hard += 1\n        else:\n            cost_soft += r_cost", "neutral"),
 ]
